@@ -56,6 +56,10 @@ func runC10(c *eng.Ctx) {
 	ruleNothingCommittedMeansWait(c)
 	c.Rule("R03.15", "K3")
 	ruleAppendsWakeParkedCommittedReaders(c)
+	c.Rule("R10.9", "K1")
+	ruleCommittedReaderCapsOnlyPastTheEnd(c)
+	c.Rule("R10.2", "K1")
+	ruleBeginningOfLogOnlyAtTheFirstSegment(c)
 	c.Rule("R09.9", "K5")
 	ruleReadPathSkipsDeletedSegments(c)
 	p := c.P
